@@ -60,7 +60,7 @@ LostWakeupSig(e) == /\ e.a = "Quiesce" /\ e.mode = "waiter" /\ e.peek
                                       \* parked all the same (a failed CAS taken for "empty") is something else
 \* a Close that returns while a returned Write has been neither delivered nor reported: that message will never reach
 \* the wrapped writer - the first sentence of C12 as well as the accounting clause of C11
-Undelivered(e) == e.a = "CloseRet" /\ Len(delivered) + alerts < Cardinality(returned)
+Undelivered(e) == e.a = "CloseRet" /\ OnTime(delivered) + alerts < Cardinality(returned \ late)
 Sig(e) == IF LostWakeupSig(e) THEN "LostWakeupSig" ELSE IF Undelivered(e) THEN "Undelivered" ELSE ""
 
 TNext ==
@@ -69,7 +69,7 @@ TNext ==
      IF e.a = "Reset"
      THEN /\ ringSize' = e.N /\ started' = {} /\ pred' = <<>> /\ returned' = {} /\ inWrite' = 0
           /\ delivered' = <<>> /\ alerts' = 0 /\ collisions' = 0 /\ outstandingMax' = 0
-          /\ closing' = FALSE /\ closed' = FALSE
+          /\ closing' = FALSE /\ closed' = FALSE /\ late' = {}
           /\ failed' = FALSE /\ noalert' = e.noalert /\ UNCHANGED bad
      ELSE UNCHANGED noalert /\
      IF failed THEN UNCHANGED <<cvars, failed, bad>>
